@@ -273,6 +273,15 @@ class VerSim(Sim):
         target = 'kv' if o == 'obj' else self.prog['owners'].index(o) - 1
         return ('S', p.key, target, n, ('$UID',))
 
+    def final_command(self, p):
+        enabled = p.obj.getCodeVersion()
+        cands = sorted(set((o, n) for (o, n, v) in self.prog[p.code] if v <= enabled))
+        if not cands:
+            return ('T', p.key, 0.0)
+        o, n = cands[0]
+        target = 'kv' if o == 'obj' else self.prog['owners'].index(o) - 1
+        return ('S', p.key, target, n, ('$UID',))
+
     def do_submit(self, a):
         p = self.procs.get(a[1])
         before = self.uid
